@@ -20,11 +20,11 @@ def logs(nsteps):
     names = [["x"], ["x", "y"]]
     for ms, ss, ks, ns in itertools.product(managers, scens, kinds, names):
         def step(i):
-            return {m: {s: {k: {n: float(10 * i + j) for j, n in enumerate(ns)} for k in ks} for s in ss} for m in ms}
+            return {m: {s: {k: {n: float(1000 * mi + 100 * si + 10 * i + j + 0.5 * ki) for j, n in enumerate(ns)} for ki, k in enumerate(ks)} for si, s in enumerate(ss)} for mi, m in enumerate(ms)}
         yield {"%d.0" % i: step(i) for i in range(1, nsteps + 1)}
 def results(nsteps):
     for ms, ss, ns in itertools.product([["sm"], ["sm", "sm2"]], [["a"], ["a", "b"]], [["x"], ["x", "y"]]):
-        yield {"%d.0" % i: {m: {s: {n: {"%d.0" % i: float(i + 0.5 * j)} for j, n in enumerate(ns)} for s in ss} for m in ms} for i in range(1, nsteps + 1)}
+        yield {"%d.0" % i: {m: {s: {n: {"%d.0" % i: float(1000 * mi + 100 * si + i + 0.5 * j)} for j, n in enumerate(ns)} for si, s in enumerate(ss)} for mi, m in enumerate(ms)} for i in range(1, nsteps + 1)}
 n = 0; bad = []
 for k in range(1, N + 1):
     for L in logs(k):
